@@ -62,6 +62,16 @@ def scenarios(tier, rng):
                     R(bits, v, d)
             if bits <= 6:
                 continue
+        # every power of ten of the width, with its two neighbours (log10 / checked_log10; the base-10 contract is cheap): an
+        # estimate of the decimal logarithm from the bit length goes wrong at isolated bit lengths only (e.g. 681, 877, 1166)
+        if bits >= 4:
+            step = 1 if (bits <= 1100 or not quick) else 3
+            k = rng.randrange(0, step)
+            while 10 ** k <= mx:
+                for v in (10 ** k - 1, 10 ** k, 10 ** k + 1):
+                    if 0 < v <= mx:
+                        L2(bits, v)
+                k += step
         pp = perfect_powers(bits, rng, 6 if quick else 30)
         if bits > 1100:
             pp = rng.sample(pp, 8 if quick else 30)
